@@ -57,26 +57,43 @@ func (h zzSiteHandler) ServeHTTP(w http.ResponseWriter, r *http.Request) (int, e
 // runs; the handler sees the request path with the site's path prefix trimmed.
 func VerifH01cServerEntry() {
 	n := verifrt.IntRange("nsites", 1, 2)
-	sites := zzSites(n)
+	sites := zzSitesWith(n, true)
 	var ran []int
 	var seenPath string
 	group := make([]*SiteConfig, n)
 	for i := range sites {
+		i := i
 		sites[i].cfg.TLS = &caskettls.Config{}
-		sites[i].cfg.middlewareChain = zzSiteHandler{id: i, ran: &ran, path: &seenPath}
+		sites[i].cfg.AddMiddleware(func(Handler) Handler { return zzSiteHandler{id: i, ran: &ran, path: &seenPath} })
 		group[i] = sites[i].cfg
 	}
-	s := &Server{Server: &http.Server{Addr: ":80"}, vhosts: newVHostTrie(), sites: group}
-	for _, sc := range group {
-		s.vhosts.Insert(sc.Addr.VHost(), sc)
+	// the server as casket builds it for a listener
+	s, err := NewServer(":80", group)
+	if err != nil {
+		verifrt.Fail("new-server")
+		return
 	}
 	rawHost, host := zzReqHost()
 	path := zzReqPath(2)
-	proto := 1
-	if verifrt.Bool("http2") {
-		proto = 2
+	// the client may spell the same path with percent-escapes
+	rawPath := ""
+	if verifrt.Bool("escaped-spelling") {
+		for i := 0; i < len(path); i++ {
+			switch path[i] {
+			case 'a':
+				rawPath += "%61"
+			case 'b':
+				rawPath += "%62"
+			default:
+				rawPath += "/"
+			}
+		}
 	}
-	r := &http.Request{Method: "GET", Host: rawHost, URL: &url.URL{Path: path}, ProtoMajor: proto, Header: http.Header{}, RemoteAddr: "1.2.3.4:5"}
+	// HTTP/1 or HTTP/2: a symbolic value, so paths divide only where the server looks at it
+	pb := verifrt.Byte("proto")
+	verifrt.Assume(pb == 1 || pb == 2)
+	proto := int(pb)
+	r := &http.Request{Method: "GET", Host: rawHost, URL: &url.URL{Path: path, RawPath: rawPath}, ProtoMajor: proto, Header: http.Header{}, RemoteAddr: "1.2.3.4:5"}
 	w := &zzRW{}
 	s.ServeHTTP(w, r)
 
@@ -95,7 +112,7 @@ func VerifH01cServerEntry() {
 		verifrt.Assert(w.status == 200, "site-response")
 		if site.path == "/" {
 			verifrt.Assert(seenPath == path, "path-unchanged-for-root-site")
-		} else {
+		} else if rawPath == "" {
 			trimmed := strings.TrimPrefix(path, site.path)
 			if !strings.HasPrefix(trimmed, "/") {
 				trimmed = "/" + trimmed
